@@ -73,6 +73,16 @@ func oracleC07(w *World, p *PlanSrv, h *History, sut *SUT, peers []*RawPeer) {
 				if terminalAt >= 0 {
 					bad("C07.sent-after-terminal", "data", "the server sent %s after its terminal session envelope", short(canonJSON(e.Frame), 120))
 				}
+				// only session envelopes, in protocol order, until the established one has gone out
+				est := false
+				for _, f := range sframes {
+					if fstr(f.Frame, "state") == "established" {
+						est = true
+					}
+				}
+				if !est {
+					bad("C07.emission-out-of-order", "data-before-established", "the server emitted %s before its established session envelope", short(canonJSON(e.Frame), 120))
+				}
 				continue
 			}
 			if terminalAt >= 0 {
